@@ -29,7 +29,10 @@ func factsDeterminism() {
 		fmt.Fprintln(os.Stderr, "extract: go/packages:", err)
 		pkgs = nil
 	}
-	var ranges, nows, gos, writers [][2]string
+	var ranges, nows, gos, writers, localReads [][2]string
+	calendarMethods := map[string]bool{"Year": true, "Month": true, "Day": true, "Hour": true, "Minute": true, "Weekday": true,
+		"YearDay": true, "Date": true, "Clock": true, "ISOWeek": true, "Format": true, "AppendFormat": true, "String": true,
+		"Zone": true, "Location": true, "MarshalJSON": true, "MarshalText": true, "MarshalBinary": true, "GobEncode": true}
 	loaded := len(pkgs) > 0
 	for _, p := range pkgs {
 		if len(p.Errors) > 0 {
@@ -86,6 +89,47 @@ func factsDeterminism() {
 						return ""
 					}
 				}
+				// time values built from a Unix timestamp carry the location time.Local (the host's time zone) unless
+				// .UTC() / .In(...) is applied: a calendar read on one of them depends on the host
+				localTimes := map[string]bool{}
+				isLocalCtor := func(e ast.Expr) bool {
+					c, ok := e.(*ast.CallExpr)
+					if !ok {
+						return false
+					}
+					switch callName(c) {
+					case "time.Unix", "time.UnixMilli", "time.UnixMicro", "time.Now":
+						return true
+					}
+					return false
+				}
+				ast.Inspect(fd.Body, func(n ast.Node) bool {
+					if as, ok := n.(*ast.AssignStmt); ok && len(as.Lhs) == len(as.Rhs) {
+						for i, r := range as.Rhs {
+							if id, ok := as.Lhs[i].(*ast.Ident); ok && isLocalCtor(r) {
+								localTimes[id.Name] = true
+							}
+						}
+					}
+					return true
+				})
+				ast.Inspect(fd.Body, func(n ast.Node) bool {
+					c, ok := n.(*ast.CallExpr)
+					if !ok {
+						return true
+					}
+					se, ok := c.Fun.(*ast.SelectorExpr)
+					if !ok || !calendarMethods[se.Sel.Name] {
+						return true
+					}
+					if ty := p.TypesInfo.TypeOf(se.X); ty == nil || ty.String() != "time.Time" {
+						return true
+					}
+					if id, ok := se.X.(*ast.Ident); (ok && localTimes[id.Name]) || isLocalCtor(se.X) {
+						localReads = append(localReads, [2]string{fn, name + "::" + se.Sel.Name})
+					}
+					return true
+				})
 				ast.Inspect(fd.Body, func(n ast.Node) bool {
 					switch t := n.(type) {
 					case *ast.RangeStmt:
@@ -158,12 +202,13 @@ func factsDeterminism() {
 	}
 	sort.Strings(bm)
 	emitStrs("bankMethodsUsedByHaqq", bm, "every method invoked on a bank keeper (any value whose type is a BankKeeper interface or a keeper of x/bank) from non-test code outside x/bank")
-	for _, l := range []*[][2]string{&ranges, &nows, &gos, &writers} {
+	for _, l := range []*[][2]string{&ranges, &nows, &gos, &writers, &localReads} {
 		sort.Slice(*l, func(i, j int) bool { return (*l)[i][0]+(*l)[i][1] < (*l)[j][0]+(*l)[j][1] })
 		*l = dedup(*l)
 	}
 	emitBool("determinismPackagesLoaded", loaded, "go/packages loaded and type-checked every consensus package (app, x, precompiles, types, utils, ethereum, crypto, encoding)")
 	emitPairs("mapRangeSites", ranges, "every `range` over a map in non-test, non-generated, non-client consensus code: file::function::expression → does the function sort (sort.* / slices.*)")
+	emitPairs("localTimeReads", localReads, "every calendar read (Year, Month, Day, Hour, Weekday, Format, …) on a time.Time built in the same function by time.Unix / UnixMilli / UnixMicro / Now without .UTC(): such a value is in the host's time zone: file, function::method")
 	emitPairs("timeNowSites", nows, "every time.Now() call in the same code: file, function")
 	emitPairs("goStmtSites", gos, "every `go` statement in the same code: file, function")
 	emitPairs("keeperFieldWriters", writers, "every assignment / delete / maps.Copy to a field of a method receiver of type Keeper or Haqq (process-local state mutated after construction): file::Type.field, method")
